@@ -12,6 +12,12 @@ mod verif_c14 {
     fn int() -> SparqlNumber {
         SparqlNumber::NativeInt(kani::any())
     }
+    /// integers that every coercion used by the comparison represents exactly (|i| <= 2^24)
+    fn small_int() -> SparqlNumber {
+        let i: isize = kani::any();
+        kani::assume(-16_777_216 <= i && i <= 16_777_216);
+        SparqlNumber::NativeInt(i)
+    }
     fn flt() -> SparqlNumber {
         let f: f32 = kani::any();
         kani::assume(!f.is_nan());
@@ -46,14 +52,26 @@ mod verif_c14 {
 '''
 
 MK = {"NativeInt": "int()", "Float": "flt()", "Double": "dbl()"}
+MK_EXACT = {"NativeInt": "small_int()", "Float": "flt()", "Double": "dbl()"}
+
+
+def triples():
+    return [(a, b, c) for a in KINDS for b in KINDS for c in KINDS]
+
+
+def name(prefix, t):
+    return "%s_%s_%s_%s" % (prefix, t[0].lower(), t[1].lower(), t[2].lower())
 
 
 def generate():
-    names, body = [], []
-    for i, a in enumerate(KINDS):
-        for j, b in enumerate(KINDS):
-            for k, c in enumerate(KINDS):
-                n = "c14_num_%s_%s_%s" % (a.lower(), b.lower(), c.lower())
-                names.append(n)
-                body.append("\n    #[kani::proof]\n    fn %s() {\n        check(%s, %s, %s);\n    }\n" % (n, MK[a], MK[b], MK[c]))
-    return names, HEADER + "".join(body) + "}\n"
+    """full-domain harnesses c14_num_* and exact-fragment harnesses c14_exact_* (integers within +-2^24)."""
+    full, exact, body = [], [], []
+    for t in triples():
+        n = name("c14_num", t)
+        full.append(n)
+        body.append("\n    #[kani::proof]\n    fn %s() {\n        check(%s, %s, %s);\n    }\n" % (n, MK[t[0]], MK[t[1]], MK[t[2]]))
+        if "NativeInt" in t:
+            n = name("c14_exact", t)
+            exact.append(n)
+            body.append("\n    #[kani::proof]\n    fn %s() {\n        check(%s, %s, %s);\n    }\n" % (n, MK_EXACT[t[0]], MK_EXACT[t[1]], MK_EXACT[t[2]]))
+    return full, exact, HEADER + "".join(body) + "}\n"
